@@ -75,8 +75,13 @@ RULES = {
     "that forgets the byte order (`.type`, `.kind`, `.char`, `.name`, `.itemsize`, `.newbyteorder()`, `.base`): the byte producers "
     "(tobytes / tofile / the serializer) swap bytes for the host's order only and rely on the refusal of foreign-order arrays, so a "
     "`>f4` array accepted as FLOAT is written big-endian and every reader decodes other values than numpy() shows",
+    "R20": "a streamed copy reads exactly the tensor: in the copy loop of `ExternalTensor.tofile` (`while <remaining> > 0`), every read of the "
+    "source is `read(min(<chunk constant>, <remaining>))` - bounded by the bytes of the tensor that are still to come, and by the "
+    "module's chunk constant, which is also what the concurrent writer reserves for an external tensor (`_reservation_bytes`); a "
+    "`readinto(<whole buffer>)` runs past the end of the tensor into the next tensor of the data file (tofile() then emits more than "
+    "nbytes bytes and disagrees with tobytes() / numpy()), and a chunk scaled by the element size holds itemsize times the reservation",
 }
-FLOORS = {"R1": 120, "R2": 4, "R3": 8, "R4": 1, "R5": 6, "R6": 20, "R7": 30, "R8": 4, "R9": 2, "R10": 1, "R11": 1, "R12": 3, "R13": 1, "R14": 8, "R15": 1, "R16": 12, "R17": 4, "R18": 2, "R19": 2}
+FLOORS = {"R1": 120, "R2": 4, "R3": 8, "R4": 1, "R5": 6, "R6": 20, "R7": 30, "R8": 4, "R9": 2, "R10": 1, "R11": 1, "R12": 3, "R13": 1, "R14": 8, "R15": 1, "R16": 12, "R17": 4, "R18": 2, "R19": 2, "R20": 1}
 EXPLANATION = (
     "Evaluates the enum and table literals of _enums/_core/tensor_adapters with ast only and compares them with "
     "each other; derives the sub-byte classes from _BITWIDTH_MAP and checks every storage guard, packing-helper "
@@ -1411,7 +1416,46 @@ def rule_r19(ctx):
     ctx.require(n >= 2, f"only {n} lookups in the numpy-to-DataType table found")
 
 
+def copy_loop_reads(ctx):
+    """[(function, read call, bounded by the remaining count, bounded by the reserved chunk constant)] for the reads of the streamed copy."""
+    f = ctx.repo.func("onnx_ir._core:ExternalTensor.tofile")
+    # the constant the writer reserves for an external tensor
+    rb = ctx.repo.module("onnx_ir.external_data").functions.get("_reservation_bytes")
+    consts = {x.attr if isinstance(x, ast.Attribute) else x.id for x in (ast.walk(rb.node) if rb is not None else ()) if isinstance(x, (ast.Attribute, ast.Name))
+              and (x.attr if isinstance(x, ast.Attribute) else x.id).isupper()}
+    out = []
+    for lp in (x for x in own_nodes(f.node) if isinstance(x, ast.While)):
+        rem = {y.id for y in ast.walk(lp.test) if isinstance(y, ast.Name)}
+        for c in (x for x in ast.walk(lp) if isinstance(x, ast.Call) and isinstance(x.func, ast.Attribute) and x.func.attr in ("read", "readinto", "read1", "readinto1")):
+            arg = c.args[0] if c.args else None
+            by_rem = by_const = False
+            if c.func.attr.startswith("read") and not c.func.attr.startswith("readinto") and isinstance(arg, ast.Call) and dotted_of(arg.func) == "min" and len(arg.args) == 2:
+                names = [(a.id if isinstance(a, ast.Name) else a.attr if isinstance(a, ast.Attribute) else None) for a in arg.args]
+                by_rem = any(nm in rem for nm in names)
+                by_const = any(nm in consts for nm in names)
+            out.append((f, c, by_rem, by_const))
+    return out
+
+
+def rule_r20(ctx, rule="R20", which="remaining"):
+    n = 0
+    for f, c, by_rem, by_const in copy_loop_reads(ctx):
+        n += 1
+        if which == "remaining":
+            ctx.check(rule, f"{f.local}: `{norm(c)[:50]}` reads no further than the tensor", by_rem, f, c,
+                      f"`{norm(c)[:60]}` is not bounded by the bytes that remain of this tensor: the last read runs on into whatever follows in the data file, so tofile() into a "
+                      "buffer or pipe emits more than nbytes bytes (the next tensor's data) and disagrees with tobytes() and numpy()",
+                      how="reads inside the `while <remaining> > 0` loop of ExternalTensor.tofile are read(min(…, <remaining>))", construct="copy loop read not bounded by the remaining bytes")
+        else:
+            ctx.check(rule, f"{f.local}: `{norm(c)[:50]}` holds no more than the writer reserves for an external tensor", by_const, f, c,
+                      f"`{norm(c)[:60]}` is not bounded by the chunk constant that `_reservation_bytes` reserves for an external tensor: each worker copying such a tensor holds more "
+                      "than it reserved (itemsize times the chunk for a chunk scaled by the element size), so the workers together exceed the budget plus the largest tensor",
+                      how="reads of the copy loop are read(min(<the constant named in external_data._reservation_bytes>, …))", construct="copy loop chunk differs from the reserved chunk")
+    ctx.require(n >= 1, "the copy loop of ExternalTensor.tofile was not found")
+
+
 def run(ctx):
+    rule_r20(ctx)
     rule_r19(ctx)
     rule_r18(ctx)
     rule_r17(ctx)
